@@ -545,18 +545,18 @@ def check_case(r, rng, nq=10):
     return bad, notes
 
 
-def selftest(n=300, seed=0, tier="quick", **knobs):
+def selftest(n=300, seed=0, tier="quick", watchdog=30, **knobs):
     import signal
     import time
     rng = random.Random(f"qcow2/selftest/{seed}")
     t0, nbad, nnotes, feats = time.time(), 0, 0, {}
 
     def on_alarm(*a):
-        raise TimeoutError("watchdog: case took more than 30 s")
+        raise TimeoutError(f"watchdog: case took more than {watchdog} s (hang?)")
     signal.signal(signal.SIGALRM, on_alarm)
     for i in range(n):
         r = gen_recipe(rng, tier, **knobs)
-        signal.alarm(30)
+        signal.alarm(watchdog)
         try:
             bad, notes = check_case(r, rng)
         except TimeoutError as e:
